@@ -206,11 +206,15 @@ PROPS['C10'] = {
     'kani': ['bits_k', 'wr_k'],
     'claim': ('Writer totality and representability, as far as the units reach: the bit packer (serialize_integer, RecordDataType::write, add_bits) '
               'is total and stores exactly the value under its precondition min <= value <= max (Verus, C12 unit); integer_bits/bit_size total for all '
-              'i64 ranges incl. min = max and the full range; get_max_packet_points total, >= 1 and packets fit the 16-bit length (Kani, prototype '
-              'length bounded); add_point establishes the packer precondition for everything it buffers and rejects wrong arity/type/range (unit pcw).'),
+              'i64 ranges incl. min = max and the full range; get_max_packet_points, on the real body for prototypes of EVERY length (unit pcw): no panic, '
+              'Ok(n) implies 1 <= n <= 2^20 (finalize\'s drain loop makes progress) and a packet of n points fits the 16-bit length field, otherwise an Invalid '
+              'error; validate_prototype and its helpers contains/get/validate_cartesian/validate_spherical/validate_color/validate_return on the real bodies: '
+              'accepted EXACTLY when the prototype follows the documented rules (each name once, all-or-none coordinate and colour groups, invalid-state and '
+              'flag attributes with their group and integer range, integer index/return attributes, Cartesian or spherical coordinates present), rejected with '
+              'an Invalid error otherwise; add_point establishes the packer precondition for everything it buffers and rejects wrong arity/type/range (unit pcw).'),
     'trusted': GLOBAL_TRUSTED,
     'assumptions': PROPS['C12']['assumptions'] + [
-        'get_max_packet_points is checked for prototypes of at most 3 records (bounded; complete in the ranges); the underflow for prototypes with more than ~21 000 records (F2b, by reading) is outside that bound',
+        'a slice of Records has fewer than 2^56 elements (allocation limit)',
         'Extension::validate_name and namespace registration are string code: excluded',
         'the clause "whenever all calls succeeded the file reads back" is C01/C04/C06'],
 }
@@ -228,9 +232,8 @@ PROPS['C14'] = {
 
 TRUSTED_ALLOW['pcw'] = TRUSTED_ALLOW['bits'] | TRUSTED_ALLOW['page_w'] | {
     'external_body:eq', 'external_body:to_f64', 'external_body:to_i64', 'external_body:update_min', 'external_body:update_max',
-    'external_body:shim_has', 'external_body:shim_find', 'external_body:shim_vec_bsw', 'external_body:shim_opaque_from_str',
-    'external_body:validate_prototype_contract', 'external_body:get_max_packet_points', 'external_body:from_record_type',
-    'external_body:from_record_types', 'external_body:spec_default', 'external_body:shim_clone_opaque', 'external_body:shim_clone_proto',
+    'external_body:shim_vec_bsw', 'external_body:shim_opaque_from_str',
+    'external_body:spec_default', 'external_body:shim_clone_opaque', 'external_body:shim_clone_proto',
     'external_body:shim_arr8', 'external_body:bytes_eq8',
 }
 PROPS['C10']['verus'] = ['bits', 'pcw']
@@ -316,20 +319,20 @@ PROPS['C05'] = {
 }
 
 _PCW2 = [
-    'contract-only inside unit pcw: validate_prototype (closures over iterators; assumed to enforce the documented rules it is specified with), get_max_packet_points (1 <= r <= 2^20; Kani wr_k, prototype length bounded), limits()/from_record_type(s) (Kani wr_k), Iterator::any/find with name-equality closures (shims), derive(Default) of the bounds structs = all None, derive(Clone) structural',
-    'prototype length < 32768 (precondition of PointCloudWriter::new; F2b: larger prototypes are not rejected by the code)',
+    'contract-only inside unit pcw: derive(Default) of the bounds structs = all None, derive(Clone) structural. Verified on their real bodies in the same unit (no longer assumed): validate_prototype and its helpers, get_max_packet_points, RecordDataType::limits, IntensityLimits::from_record_type, ColorLimits::from_record_types. Iterator adapters are spelled out as the loops / matches that define them, each application logged as a rewrite: sum over map (accumulation loop), any / find with a name-equality closure (verified helper loops shim_has* / shim_find*), Option::map with a constructor (match), fold (crc unit); the two local closures of validate_prototype are beta-reduced',
+    'a slice of Records has fewer than 2^56 elements (allocation limit; precondition of PointCloudWriter::new)',
     'the per-call contracts (new / add_point / write_buffer_to_disk / finalize) are induction steps relative to the pre-state; the whole-history statement (all points of a section, in order, across all packets) follows by induction over calls and is not mechanised as one theorem',
 ]
 PROPS['C01'] = {
     'level': 'proof',
-    'verus': ['bits', 'pcw', 'rd'],
+    'verus': ['bits', 'page_w', 'page_r', 'pcw', 'rd'],
     'claim': ('Raw round trip as a chain of per-function contracts on the real bodies. Writer: add_point buffers exactly the accepted values (all fit the prototype), '
               'write_buffer_to_disk packs the first min(capacity, pending) points in order: per stream, emitted chunk bytes followed by what stays buffered are exactly '
               'the previously buffered bits plus enc(value) of each packed point (enc = value-min in width(min,max) bits LSB first / LE float bytes, C12), and the logical '
               'stream receives exactly one well-formed data packet (header, n LE stream lengths, the chunks, zero padding to 4; <= 65535 bytes) or nothing; the section '
               'length is the number of logical bytes since the section start; finalize drains everything, patches ONLY the 32 header bytes with the final length and '
               'publishes (records = points added, file_offset = physical section start, prototype); new writes the header placeholder and records data_offset = '
-              'physical position behind it. Page layer: logical stream survives flush (C11). Reader: QueueReader::new seeks to file_offset/data_offset, advance '
+              'physical position behind it. Page layer (units page_w / page_r, as under C11): the logical stream survives every write / seek-back-and-patch / flush history and is what the reader returns. Reader: QueueReader::new seeks to file_offset/data_offset, advance '
               'appends each announced stream chunk to its bit buffer and decodes floor(rest/w) values (chunk+min), pop_point/next yield one value per record in order, '
               'at most `records` points (unit rd). Decoder(encoder(v)) = v for every representable v (theorem_int_roundtrip, float LE round trip).'),
     'trusted': GLOBAL_TRUSTED + [_DEV, _CRC_OFF],
@@ -378,12 +381,13 @@ PROPS['C06']['native'] = ['pw_n', 'blob_n', 'img_n']
 for _p in ('C14', 'C10', 'C01', 'C12', 'C02'):
     PROPS[_p]['native'] = ['pcw_n']
 PROPS['C02']['native'] = ['pw_n', 'blob_n', 'pcw_n']
+PROPS['C01']['native'] = ['pw_n', 'pcw_n']
 PROPS['C10']['native'] = ['pcw_n', 'ext_n']
 PROPS['C16']['native'] = ['pw_n', 'blob_n', 'pcw_n']
 for _p in ('C17', 'C09', 'C03', 'C05', 'C07', 'C08'):
     PROPS[_p]['native'] = ['rd_n']
 
-FIX_COMMITS = ['4bb8197', '4c9a29a', '15147a8', '4e117ba', 'b93d656', 'a099e6e', 'e707a6b', '30d67e9', '4443841', '1d90b93', 'ec0e9b9', 'ed32bde', '5c22086']
+FIX_COMMITS = ['4bb8197', '4c9a29a', '15147a8', '4e117ba', 'b93d656', 'a099e6e', 'e707a6b', '30d67e9', '4443841', '1d90b93', 'ec0e9b9', 'ed32bde', '5c22086', 'e5e9f3b', '1f3471b']
 
 _PENDING = 'unit not completed yet in the build round (applicable; see DESIGN.md §1) — not claimed until its obligations are discharged'
 NOT_APPLICABLE = {
